@@ -125,7 +125,9 @@ func c07Gen(t *rapid.T) interface{} {
 	}
 	blk := func(label string) (int, int) {
 		var w int
-		switch lib.Weighted(t, []int{10, 55, 25, 10}, label+"Size") {
+		switch lib.Weighted(t, []int{20, 110, 50, 20, 3}, label+"Size") {
+		case 4: // more distinct words than any 16-bit-ish table or "large enough" scratch capacity holds
+			w = lib.IntN(t, 16000, 40000, label+"Words")
 		case 0:
 			return 0, 0
 		case 1:
